@@ -49,7 +49,7 @@ template<length_t C, length_t R, qualifier Q> static double mxm(mat<C, R, float,
 #define LO(name, scale, ...) { std::printf("L %s %d %.9g =", name, i, (double)(scale)); __VA_ARGS__; std::printf("\n"); }
 int main(int argc, char** argv)
 {
-	uint64_t seed = argc > 2 ? std::strtoull(argv[2], 0, 10) : 1; bool thorough = argc > 3 && std::string(argv[3]) == "thorough"; int n = thorough ? 40000 : 3000; st = seed;
+	uint64_t seed = argc > 2 ? std::strtoull(argv[2], 0, 10) : 1; bool thorough = argc > 3 && std::string(argv[3]) == "thorough"; int n = thorough ? 12000 : 3000; st = seed;
 	for (int i = 0; i < n; ++i) {
 		vec4 a(rf(i), rf(i + 1), rf(i + 2), rf(i + 3)), b(rf(i + 4), rf(i + 5), rf(i + 6), rf(i + 7)), c(rf(i + 1), rf(i + 3), rf(i + 5), rf(i + 7)); vec3 a3(a), b3(b), c3(c);
 		if (i % 9 == 0) b = a; if (i % 11 == 0) b3 = vec3(a3.y, -a3.x, 0.f);           // equal operands; orthogonal vectors (dot == 0)
